@@ -298,9 +298,9 @@ def run(tier, seed):
     ok, sites, failing = frame.rule_tls(TLS)
     chk.add_rule("C04.S.tls", ok, sites, failing, detail="'in-place updates are ordered after the reads they depend on' rests on the dependency stack of tracer.depend_on being per thread: a stack shared between threads "
                  "makes one trace record the input tracers of another")
-    from ..kernels import c04_fuse, c04_scope, c04_api_inner
+    from ..kernels import c04_fuse, c04_scope, c04_api_inner, c04_call_nodes
     from ..kernels.base import run_kernel
-    for k in c04_fuse.KERNELS + c04_scope.KERNELS + c04_api_inner.KERNELS:
+    for k in c04_fuse.KERNELS + c04_scope.KERNELS + c04_api_inner.KERNELS + c04_call_nodes.KERNELS:
         chk.add_kernel(run_kernel(k, tier))
     chk.add_lemmas(tier)
     n = 12 if tier == "quick" else 600
